@@ -5,6 +5,7 @@ import (
 	"strconv"
 	"strings"
 	"unicode"
+	"unicode/utf8"
 )
 
 type TokenType byte
@@ -407,11 +408,32 @@ func isFloat(val string) bool {
 	return false
 }
 
+// lowerWord maps the letters of a word to lower case. Unlike strings.ToLower
+// it keeps bytes that are no valid UTF-8 as they are instead of replacing
+// them: a token carries the text that stands in the query
+func lowerWord(word string) string {
+	if utf8.ValidString(word) {
+		return strings.ToLower(word)
+	}
+	ret := make([]byte, 0, len(word))
+	for i := 0; i < len(word); {
+		r, size := utf8.DecodeRuneInString(word[i:])
+		if r == utf8.RuneError && size <= 1 {
+			ret = append(ret, word[i])
+			i++
+			continue
+		}
+		ret = utf8.AppendRune(ret, unicode.ToLower(r))
+		i += size
+	}
+	return string(ret)
+}
+
 func buildToken(curr string, pos int) *Token {
 	// White space the splitter does not know (form feed, no-break space ...) is
 	// trimmed here: the token then starts behind what was trimmed on the left
 	pos += len(curr) - len(strings.TrimLeftFunc(curr, unicode.IsSpace))
-	curr = strings.ToLower(strings.TrimSpace(curr))
+	curr = lowerWord(strings.TrimSpace(curr))
 	if len(curr) == 0 {
 		return nil
 	}
